@@ -238,6 +238,20 @@ func (g *gen) oddTxNoChain() *hTx {
 		for k := g.r.Intn(3); k > 0; k-- {
 			in.Witness = append(in.Witness, g.randScript(g.r.Intn(40)))
 		}
+		if g.r.Intn(3) == 0 {
+			// what the inscription detector (Tx.ContainsOrdFile, used by the block statistics) looks for: a tapscript that
+			// starts with a 32-byte push followed by the "ord" envelope - whole, and cut at every length around the
+			// offsets it indexes
+			env := append([]byte{0x20}, g.r.Bytes(32)...)
+			env = append(env, 0xac, 0x00, 0x63, 0x03, 0x6f, 0x72, 0x64, 0x01, 0x01, 0x0a, 0x74, 0x65, 0x78, 0x74, 0x2f, 0x70, 0x6c, 0x61, 0x69, 0x6e, 0x00, 0x02, 0x68, 0x69, 0x68)
+			if g.r.Intn(4) != 0 {
+				env = env[:1+g.r.Intn(len(env))]
+				if g.r.Intn(2) == 0 {
+					env = env[:min(len(env), 30+g.r.Intn(14))]
+				}
+			}
+			in.Witness = append(in.Witness, env)
+		}
 		t.In = append(t.In, in)
 	}
 	for i := g.r.Intn(3); i >= 0; i-- {
